@@ -120,7 +120,12 @@ func (req *pbRequest) MarshalTo(buf []byte) (int, error) {
 }
 
 // Unmarshal unmarshals from data.
-func (req *pbRequest) Unmarshal(data []byte) error {
+func (req *pbRequest) Unmarshal(data []byte) (err error) {
+	defer func() {
+		if r := recover(); r != nil {
+			err = fmt.Errorf("proto: malformed pbRequest")
+		}
+	}()
 	var length = uint64(len(data))
 	var offset uint64
 	var n uint64
@@ -257,7 +262,12 @@ func (res *pbResponse) MarshalTo(buf []byte) (int, error) {
 }
 
 // Unmarshal unmarshals from data.
-func (res *pbResponse) Unmarshal(data []byte) error {
+func (res *pbResponse) Unmarshal(data []byte) (err error) {
+	defer func() {
+		if r := recover(); r != nil {
+			err = fmt.Errorf("proto: malformed pbResponse")
+		}
+	}()
 	var length = uint64(len(data))
 	var offset uint64
 	var n uint64
